@@ -301,8 +301,8 @@ structure Hub where
   /-- `Hub.sessions` in creation order -/
   sessions : List Sess := []
   nextSid : Nat := 1
-  /-- open connections and their remote address -/
-  conns : List (Nat × String) := []
+  /-- open connections and their remote address (as `net.ParseIP` classifies it, see C17) -/
+  conns : List (Nat × Throttle.Addr) := []
   thr : Throttle.State := Throttle.State.empty
 
 inductive Reply where
@@ -320,7 +320,7 @@ def Hub.isOpen (h : Hub) (c : Nat) : Bool := (h.conns.lookup c).isSome
 /-- `client.GetSession()` -/
 def Hub.sessionOf (h : Hub) (c : Nat) : Option Sess := h.sessions.find? (fun s => s.conn = some c)
 
-def Hub.tkey (h : Hub) (c : Nat) : Throttle.Key := Throttle.throttleKey (.raw ((h.conns.lookup c).getD ""))
+def Hub.tkey (h : Hub) (c : Nat) : Throttle.Key := Throttle.throttleKey ((h.conns.lookup c).getD (.raw ""))
 
 /-- `len(Backend.sessions)`: live sessions of the backend that count to its limit -/
 def Hub.count (h : Hub) (b : String) : Nat :=
@@ -417,7 +417,7 @@ inductive Shape where
   deriving DecidableEq, Repr
 
 inductive Op where
-  | connect (c : Nat) (addr : String)
+  | connect (c : Nat) (addr : Throttle.Addr)
   | disconnect (c : Nat)
   /-- a decodable message of type `hello` with a `hello` member -/
   | hello (c : Nat) (m : Hello)
